@@ -19,6 +19,11 @@ replaying the served chain from genesis reproduces every block hash and state ro
   reads through the caches (so the same end-block, the same header) and the same events.
   It depends on the restoration after the oversize remainder: `proposal_needs_oversize_restore` is the
   counterexample without it (the defect repaired in /repo; Go scenario `corpus-oversize-remainder`).
+* `honest_proposal_accepted` (model `Canopy.Exec`): the result a leader ships is the result every
+  replica recomputes, given the statement order of `ProduceProposal` extracted from the source (header
+  hashed BEFORE block result and certificate results — the checkpoint of every 100th height — are
+  finalised); `proposal_rejected_when_results_precede_hash` is the counterexample for the other order
+  (Go scenario `checkpoint-height`).
 * `archive_roundtrip`: the block the archive re-assembles (`BlockResult.ToBlock`: every transaction
   re-marshalled) has the certified transaction root **iff** every included transaction's raw bytes
   are canonical. Hypothesis, stated: the transaction root determines the list of raw transaction
@@ -89,6 +94,58 @@ theorem proposal_needs_oversize_restore :
         (fun L => (L.F.get 0, L.included.map (·.id))) = some (some 2, [1]) ∧
     (run { Cfg.all with oversizeRestore := false } 1 false Canopy.C07.wF [Canopy.C07.wInc 1]).map
         (fun L => (L.F.get 0, L.included.map (·.id))) = some (some 1, [1]) := by decide
+
+/-! ## the results a leader ships are the results replicas recompute -/
+
+open Canopy.Exec in
+/-- what the leader puts into its proposal as the block's claimed result. The mempool check caches a
+result computed with a PROVISIONAL header (no last certificate, no VDF); `ProduceProposal` patches and
+re-hashes the header and finalises the result (the checkpoint of every 100th height quotes the block
+hash). Finalised after the hash: the final result; before it: the provisional one. -/
+def shippedResult {ρ : Type} (finalisedAfterHash : Bool) (final provisional : ρ) : ρ :=
+  if finalisedAfterHash then final else provisional
+
+open Canopy.Exec in
+/-- **honest proposals are accepted** (model `Canopy.Exec`): if the leader's execution of `b` on its
+committed state gives `r`, and the proposal claims what `ProduceProposal` ships — decided by the
+statement order extracted from the source (`resultsFinalisedAfterHashFact`) — then every node with the
+same committed state, whatever else it did before, validates the proposal with result `r`.
+With the finalisation moved before the hash this is false at every height whose result quotes the
+block hash (`proposal_rejected_when_results_precede_hash`). -/
+theorem honest_proposal_accepted {σ β ρ ε : Type} [DecidableEq β] [DecidableEq ρ] (S : Sys σ β ρ ε)
+    (leader replica : Node σ β ρ) (b : β) (r provisional : ρ)
+    (hp : (produce S leader b).2 = .ok r)
+    (hclaim : S.claim b = shippedResult resultsFinalisedAfterHashFact r provisional)
+    (hc : replica.committed = leader.committed) (hh : S.height b = replica.height) :
+    (validate S replica b).2 = .ok r := by
+  have hf : resultsFinalisedAfterHashFact = true := by decide
+  rw [hf] at hclaim
+  simp only [shippedResult, if_true] at hclaim
+  rw [Canopy.C03.validate_computes S replica b hh, hc]
+  rw [Canopy.C03.produce_computes] at hp
+  unfold verdict
+  cases ha : S.applyBlock leader.committed b with
+  | error e => simp [ha, Except.map] at hp
+  | ok p =>
+    obtain ⟨s1, r1⟩ := p
+    simp only [ha, Except.map, Except.ok.injEq] at hp
+    subst hp
+    simp [hclaim]
+
+open Canopy.Exec in
+/-- a system whose leader ships the PROVISIONAL result (3) although executing the block gives 7 -/
+def earlyResultsSys : Sys Nat Nat Nat Unit :=
+  ⟨fun s b => .ok (s + 1, b), fun s _ => s, fun _ => shippedResult false 7 3,
+   fun _ => 0, true, fun _ => 0, fun _ _ _ => .error (), true⟩
+
+open Canopy.Exec in
+/-- the seeded order (results finalised from the provisional hash): at a height whose result quotes
+the block hash (final 7 ≠ provisional 3) every replica answers `mismatch`, while with the shipped
+result taken after the hash it accepts -/
+theorem proposal_rejected_when_results_precede_hash :
+    (validate earlyResultsSys (init 0 0 : Node Nat Nat Nat) 7).2 = .mismatch ∧
+    (validate { earlyResultsSys with claim := fun _ => shippedResult true 7 3 } (init 0 0 : Node Nat Nat Nat) 7).2 = .ok 7 := by
+  decide
 
 /-! ## the archive round trip -/
 
